@@ -590,7 +590,7 @@ func (c *Ctx) levelMaskAlgebra() {
 			}
 			fromBoth := func(v ssa.Value) bool {
 				ls := strings.Join(leaves(v), ",")
-				return strings.Contains(ls, "m") && strings.Contains(ls, "level")
+				return strings.Contains(ls, "#0") && strings.Contains(ls, "#1") // the mask (receiver) and the level
 			}
 			switch bo.Op {
 			case token.REM:
